@@ -302,11 +302,15 @@ pub fn enforce_limbs_agg<E: FieldElement<BaseField = Felt>>(
 
     // Enforces that aggregation of the two lower 16-bits limbs is equal to the second stack element
     // in the next row.
-    result[0] = u32op_ex_div_assert2 * are_equal(frame.stack_item_next(1), limbs.v_lo());
+    // For `U32ASSERT2` the stack is not changed and the lower limbs decompose the top element.
+    result[0] = u32op_ex_div_assert2 * are_equal(frame.stack_item_next(1), limbs.v_lo())
+        + op_flag.u32assert2() * are_equal(frame.stack_item_next(0), limbs.v_lo());
 
     // Enforces that aggregation of the two upper 16-bits limbs is equal to the first stack element
     // in the next row.
-    result[1] = u32op_ex_div_assert2_sub * are_equal(frame.stack_item_next(0), limbs.v_hi());
+    // For `U32ASSERT2` the upper limbs decompose the second element from the top.
+    result[1] = u32op_ex_div_assert2_sub * are_equal(frame.stack_item_next(0), limbs.v_hi())
+        + op_flag.u32assert2() * are_equal(frame.stack_item_next(1), limbs.v_hi());
 
     2
 }
